@@ -4,6 +4,8 @@ CONSTANTS
   InitBound = {0, 1}
   OpSet <- OpsSmall
   FixAttach = TRUE
+  Literal = TRUE
+  FixDel = TRUE
 SPECIFICATION Spec
 INVARIANTS MutualExclusion NoDeadlock NoLockLeft ReturnedHoldNothing Linearizable
 PROPERTIES EveryOpReturns
